@@ -31,6 +31,7 @@ pub fn run(prop: &str, req: &str, rep: &str, outfile: &str) {
         "C18" => oracle_c18(&reqs, &reps, &mut fails, &mut checked, &mut nontrivial),
         "C13" => oracle_c13(&reqs, &reps, &mut fails, &mut checked, &mut nontrivial),
         "C19" => oracle_c19(&reqs, &reps, &mut fails, &mut checked, &mut nontrivial),
+        "C14" => oracle_c14(&reqs, &reps, &mut fails, &mut checked, &mut nontrivial),
         _ => {
             eprintln!("no oracle for {prop}");
             std::process::exit(2);
@@ -39,7 +40,7 @@ pub fn run(prop: &str, req: &str, rep: &str, outfile: &str) {
     let mut f = fs::File::create(outfile).unwrap();
     let items: Vec<String> = fails
         .iter()
-        .take(50)
+        .take(300)
         .map(|x| {
             format!(
                 "{{\"line\": {}, \"request\": {}, \"reply\": {}, \"why\": {}}}",
@@ -340,6 +341,90 @@ fn oracle_c19(
                 );
                 break;
             }
+        }
+    }
+}
+
+// ------------------------------------------------------------------------------------
+
+fn oracle_c14(
+    reqs: &[String],
+    reps: &[String],
+    fails: &mut Vec<Failure>,
+    checked: &mut u64,
+    nontrivial: &mut HashSet<String>,
+) {
+    use crate::exec::ALL_CP;
+    // documented identifiers (Windows code page numbers)
+    let ids: HashMap<&str, i64> = [
+        ("Windows932", 932), ("Windows936", 936), ("Windows949", 949), ("Windows950", 950),
+        ("Windows951", 951), ("Windows1250", 1250), ("Windows1251", 1251), ("Windows1252", 1252),
+        ("Windows1253", 1253), ("Windows1254", 1254), ("Windows1255", 1255), ("Windows1256", 1256),
+        ("Windows1257", 1257), ("Windows1258", 1258), ("MacintoshRoman", 10000),
+        ("MacintoshCyrillic", 10007), ("UsAscii", 20127), ("Iso88591", 28591), ("Iso88592", 28592),
+        ("Iso88593", 28593), ("Iso88594", 28594), ("Iso88595", 28595), ("Iso88596", 28596),
+        ("Iso88597", 28597), ("Iso88598", 28598), ("Utf8", 65001),
+    ]
+    .into_iter()
+    .collect();
+    let by_id: HashMap<i64, &str> = ids.iter().map(|(k, v)| (*v, *k)).collect();
+    let _ = ALL_CP;
+    for (i, (q, r)) in reqs.iter().zip(reps.iter()).enumerate() {
+        let t: Vec<&str> = q.split(' ').collect();
+        *checked += 1;
+        if r == "panic" {
+            fail(fails, i, q, r, "panicked".into());
+            continue;
+        }
+        match t[0] {
+            "cp_id" => {
+                if Some(&r.parse::<i64>().unwrap_or(-1)) != ids.get(t[1]) {
+                    fail(fails, i, q, r, "id() is not the documented Windows identifier".into());
+                }
+            }
+            "cp_from_id" => {
+                let n: i64 = t[1].parse().unwrap();
+                let want = if n == 0 { Some("Utf8") } else { by_id.get(&n).cloned() };
+                let got = if r == "none" { None } else { Some(r.as_str()) };
+                if want != got {
+                    fail(fails, i, q, r, format!("from_id({n}) should be {want:?} (lookup and reverse lookup must be mutually inverse)"));
+                }
+                if want.is_some() {
+                    nontrivial.insert(q.clone());
+                }
+            }
+            "@cp_sweep" => {
+                let cp = t[1];
+                let lossy = r.split("lossy=[").nth(1).and_then(|x| x.split(']').next()).unwrap_or("");
+                for u in lossy.split(',').filter(|x| !x.is_empty()) {
+                    fail(fails, i, q, r, format!("cp={cp} U+{u} encodes to bytes that decode to a different string (neither lossless nor '?')"));
+                }
+                let wiring = r.split("wiring=[").nth(1).and_then(|x| x.split(']').next()).unwrap_or("");
+                for u in wiring.split(',').filter(|x| !x.is_empty()) {
+                    fail(fails, i, q, r, format!("cp={cp} U+{u} is not encoded as by the encoding its name promises (wiring)"));
+                }
+                nontrivial.insert(q.clone());
+            }
+            "@cp_decode_sweep" => {}
+            "enc_loop" => {
+                // concatenation law on the real implementation
+                let codes = t[3];
+                let mut want: Vec<u8> = vec![];
+                if codes != "_" {
+                    for c in codes.split(',') {
+                        if c == "?" {
+                            want.push(b'?');
+                        } else {
+                            want.extend(bytes_of_hex(c).unwrap());
+                        }
+                    }
+                }
+                if *r != hex_of_bytes(&want) {
+                    fail(fails, i, q, r, "encoding of the string is not the concatenation of the encodings of its characters".into());
+                }
+                nontrivial.insert(format!("{} {}", t[1], t[2].len()));
+            }
+            _ => {}
         }
     }
 }
